@@ -60,7 +60,9 @@ fn rsm_constraints(tr: &SpendTrace) -> Vec<String> {
         }
     }
     for n in &tr.trace.csv {
-        v.push(format!("older:{}", n));
+        // the interpreter reports a relative lock as a lock time (16-bit value + unit); bits that
+        // BIP 68 ignores are not part of the satisfied constraint
+        v.push(format!("older:{}", (*n as u32) & 0x0040_ffff));
     }
     for n in &tr.trace.cltv {
         v.push(format!("after:{}", n));
@@ -210,7 +212,7 @@ fn policy_true_with(c: &DescCase, lifted: &P, constraints: &[String], spend: &Sp
     lifted.eval(&|atom: &P| match atom {
         P::Key(k) => key_of.get(k).map(|l| w.sigs.contains(l)).unwrap_or(false),
         P::After(n) => afters.contains(n),
-        P::Older(n) => olders.contains(n),
+        P::Older(n) => olders.contains(&(n & 0x0040_ffff)),
         P::Sha256(_) | P::Hash256(_) | P::Ripemd160(_) | P::Hash160(_) => {
             // reuse C07's matcher through a world without lock constraints
             crate::c07::eval_in_world(atom, c, &w, spend)
